@@ -126,7 +126,8 @@ fn roundtrip(ctx: &mut Ctx, family: &str, s: &RS) -> Option<String> {
     };
     ctx.ops(2);
     if texts.0 != texts.1 {
-        ctx.violation("representation", case.clone(), format!("PartialDSym prints {:?}, SimpleDSym prints {:?}", texts.0, texts.1), w);
+        // not demanded by the statement (each text only has to round-trip); counted as a diagnostic
+        ctx.add("diagnostic_partial_and_simple_print_differently", 1);
     }
     for t in [&texts.0, &texts.1] {
         let before = ctx.nviolations();
